@@ -264,6 +264,16 @@ def _typed(tier, seed):
     badsig = bytes([sig_k0[0] ^ 1]) + sig_k0[1:]
     sigs = [sig_k0, sig_k1, sig_k0_f1, badsig, sig_k0 + b'\x00', sig_k0[:63], b'']
     keyset = [pks[0], pks[1], pks[0][:31], b'\x01' + b'\x00' * 31, b'\xee' * 32]
+    # equality of items that differ in exactly one byte, at every position of items of 1..33 bytes (and in length only)
+    for ln in (1, 7, 8, 9, 15, 16, 17, 26, 32, 33):
+        base = bytes((7 * i + 3) & 0xff for i in range(ln))
+        for name in ('EQUAL', 'EQUAL_VERIFY'):
+            yield (P(base) + P(base) + op(name), 0)
+            yield (P(base) + P(base + b'\x00') + op(name), 0)
+            yield (P(b'\x00' + base) + P(base) + op(name), 0)
+            for pos in range(ln):
+                other = base[:pos] + bytes([base[pos] ^ 0x01]) + base[pos + 1:]
+                yield (P(base) + P(other) + op(name), 0)
     # string instructions on multi-byte UTF-8 text (character count != byte count), every index up to the byte length + 1
     for text in ('\u00e9', 'h\u00e9llo', '\u65e5\u672c\u8a9e', 'a\U0001f600b', ''):
         tb = text.encode('utf-8')
